@@ -15,7 +15,9 @@ Check (C11_explicit_actions_as_written : forall seps l ch,
   ~ (exists a, In a l /\ In a seps) -> widget_actions seps (Some l) ch = map Some l).
 Check (C11_subtree_names : forall n seps il, well_placed il n = true -> flat_map ui_names (fst (ui_of seps il n)) = pre_order_no_sep n).
 Check (C11_well_placed_no_error : forall n seps il, well_placed il n = true -> snd (ui_of seps il n) = []).
-(* the specification side pinned by evaluation *)
+Check (C11_flat_vector_represents_tree : forall root,
+  map fname (flatten_tree root) = post_order root /\ represents (flatten_tree root) (length (flatten_tree root) - 1) root).
+Check (eq_refl : flatten_tree (ON KWidget 0 None [ON KLayout 1 None [ON KWidget 2 None []]; ON KAction 3 None []]) = [(KWidget, 2, []); (KLayout, 1, [0]); (KAction, 3, []); (KWidget, 0, [1; 2])]).
 Check (eq_refl : pre_order_no_sep (ON KWidget 0 None [ON KAction 1 None []; ON KSeparator 2 None []; ON KLayout 3 None [ON KSpacer 4 None []]]) = [0; 1; 3; 4]).
 Check (eq_refl : ui_names (UWidget 0 [None] [UAction 1; ULayout 3 [USpacer 4]]) = [0; 1; 3; 4]).
 Check (eq_refl : well_placed false (ON KSpacer 1 None []) = false).
